@@ -120,4 +120,90 @@ Definition interpolate_poly_concurrent (values inv_twiddles : list F) : option (
   | None => None
   end.
 
+(* concurrent::evaluate_poly_with_offset (after the asserts of fft::evaluate_poly_with_offset): per coset chunk
+   clone_and_shift (batched running products; the batches are independent — C14_scale_par_spec,
+   C14_get_power_series_with_offset_any_T — so the scaling is the sequential map coefficient j * offset^j), then
+   split_radix_fft; permute at the end *)
+Definition evaluate_poly_with_offset_concurrent (root_of_unity : nat -> F) (p twiddles : list F) (domain_offset : F)
+           (blowup_factor : nat) : option (list F) :=
+  let domain_size := length p * blowup_factor in
+  let g := root_of_unity (Nat.log2 domain_size) in
+  match sequence (map (fun i =>
+                         let idx := permute_index blowup_factor i in
+                         let offset := fmul O (fpow_N O g (N.of_nat idx)) domain_offset in
+                         split_radix_fft (shift_by_series O p (fone O) offset) twiddles)
+                      (seq 0 blowup_factor)) with
+  | Some chunks => Some (permute O (concat chunks))
+  | None => None
+  end.
+
+(* concurrent::interpolate_poly_with_offset: split_radix_fft; permute; batched scaling by inv_len * offset^-j
+   (sequential map, same C14 theorems) *)
+Definition interpolate_poly_with_offset_concurrent (values inv_twiddles : list F) (domain_offset : F) : option (list F) :=
+  match split_radix_fft values inv_twiddles with
+  | Some v0 =>
+    let v := permute O v0 in
+    let domain_offset' := finv O domain_offset in
+    let inv_len := finv O (fofz O (Z.of_nat (length values))) in
+    Some (shift_by_series O v inv_len domain_offset')
+  | None => None
+  end.
+
 End Split.
+
+(* ---------------------------------------------------------------- prover/src/matrix/segments.rs, concurrent branch *)
+Section SegmentsConcurrent.
+Context {F : Type} (O : FOps F).
+Variable root_of_unity : nat -> F.
+
+(* Segment::new_with_buffer when `cfg!(feature = "concurrent") && domain_size >= MIN_CONCURRENT_SIZE`: the same
+   copy_polys / copy_polys_partial per coset chunk, then segments::concurrent::split_radix_fft on the `[[B; N]]` rows
+   (= split_radix_fft at rows_ops O N with the twiddles broadcast to rows), then concurrent::permute *)
+Definition segment_new_concurrent (N : nat) (polys : list (list F)) (poly_offset : nat) (offsets twiddles : list F)
+  : option (list (list F)) :=
+  let poly_size := length (hd [] polys) in
+  let domain_size := length offsets in
+  let num_base_cols := length polys in
+  if negb (is_pow2 domain_size) then None
+  else if negb (poly_size <? domain_size) then None
+  else if negb (poly_size =? length twiddles * 2) then None
+  else if negb (poly_offset <? num_base_cols) then None
+  else
+    let num_polys_remaining := num_base_cols - poly_offset in
+    let num_polys := if num_polys_remaining <? N then num_polys_remaining else N in
+    let OR := rows_ops O N in
+    let row_twiddles := map (fun t => repeat t N) twiddles in
+    let fft_chunk (o_chunk : list F) : option (list (list F)) :=
+      let d_chunk :=
+        map (fun row_idx =>
+               map (fun i => fmul O (nth row_idx (nth (poly_offset + i) polys []) (fzero O))
+                                    (nth row_idx o_chunk (fzero O)))
+                   (seq 0 num_polys) ++ repeat (fzero O) (N - num_polys))
+            (seq 0 poly_size) in
+      split_radix_fft OR d_chunk row_twiddles in
+    match sequence (map fft_chunk (chunks domain_size poly_size offsets)) with
+    | Some cs => Some (permute OR (concat cs))
+    | None => None
+    end.
+
+Definition build_segments_concurrent (N : nat) (polys : list (list F)) (twiddles offsets : list F)
+  : option (list (list (list F))) :=
+  if N =? 0 then None
+  else
+    let nb := length polys in
+    let num_segments := if nb mod N =? 0 then nb / N else nb / N + 1 in
+    sequence (map (fun i => segment_new_concurrent N polys (i * N) offsets twiddles) (seq 0 num_segments)).
+
+Definition evaluate_polys_over_concurrent (N : nat) (polys : list (list F)) (trace_twiddles : list F)
+           (domain_offset : F) (blowup : nat) : option (RowMatrix (F := F)) :=
+  if N =? 0 then None
+  else if negb (colmatrix_ok polys) then None
+  else
+    let poly_size := length (hd [] polys) in
+    let offsets := get_evaluation_offsets O root_of_unity poly_size blowup domain_offset in
+    match build_segments_concurrent N polys trace_twiddles offsets with
+    | None => None
+    | Some segments => from_segments O N segments (length polys)
+    end.
+
+End SegmentsConcurrent.
